@@ -444,6 +444,7 @@ func runC10(p *core.Prog, r *core.Report) {
 			if set == nil {
 				continue
 			}
+			set = p.Inl(set) // a shared (generic) parse helper and the parser handed to it are seen in place
 			unsigned := b.Info()&types.IsUnsigned != 0
 			width := sizes.Sizeof(b) * 8
 			wantFn := "strconv.ParseInt"
@@ -452,13 +453,19 @@ func runC10(p *core.Prog, r *core.Report) {
 			}
 			var problems []string
 			found := false
-			for f := range reachableFrom(p, set) {
+			for _, f := range viewFuncs(p, set) {
+				f := f
 				sx.Instrs(f, func(in ssa.Instruction) {
 					cc, ok := in.(*ssa.Call)
 					if !ok {
 						return
 					}
 					n := sx.CalleeName(cc)
+					if n == "dynamic" {
+						if fn, _ := sx.ResolveFuncValue(cc.Call.Value); fn != nil {
+							n = sx.FuncName(fn)
+						}
+					}
 					if n != "strconv.ParseInt" && n != "strconv.ParseUint" && n != "strconv.Atoi" {
 						return
 					}
@@ -472,7 +479,7 @@ func runC10(p *core.Prog, r *core.Report) {
 						// helper: bit size passed by the caller
 						return
 					}
-					k, isC := sx.ConstInt(bits)
+					k, isC := sx.ConstInt(sx.Unspill(bits))
 					if !isC || (k != width && k != 0) {
 						problems = append(problems, fmt.Sprintf("bit size %s for a %d-bit type at %s", sx.ValPath(bits), width, p.Pos(in.Pos())))
 					}
@@ -496,10 +503,18 @@ func runC10(p *core.Prog, r *core.Report) {
 			if !found {
 				// integer-kinded types with their own textual form (time.Duration) use another parser
 				other := false
-				for f := range reachableFrom(p, set) {
+				for _, f := range viewFuncs(p, set) {
 					sx.Instrs(f, func(in ssa.Instruction) {
-						if cc, ok := in.(*ssa.Call); ok && parserFns[sx.CalleeName(cc)] != "" {
-							other = true
+						if cc, ok := in.(*ssa.Call); ok {
+							n := sx.CalleeName(cc)
+							if n == "dynamic" {
+								if fn, _ := sx.ResolveFuncValue(cc.Call.Value); fn != nil {
+									n = sx.FuncName(fn)
+								}
+							}
+							if parserFns[n] != "" {
+								other = true
+							}
 						}
 					})
 				}
